@@ -312,7 +312,7 @@ def judge(tier, a, b, A=None, B=None, deep_policy=None):
     return cls, ab, out
 
 
-CHUNK = {"quick": 12, "thorough": 40}
+CHUNK = {"quick": 24, "thorough": 48}
 
 
 def tasks(tier):
@@ -334,9 +334,9 @@ def work(task):
 
     def deep_policy(a, b):
         # The depth-3 re-search is expensive.  It is always done for a pair no classifier recognises (up to 40 confirmed
-        # cases per task, by then the run fails anyway); for a recognised family only until 3 cases are confirmed.
+        # cases per task, by then the run fails anyway); for a recognised family only until 2 cases are confirmed.
         fam = family({"tier": tier, "a": list(a), "b": list(b), "kind": "unwitnessed"})
-        return nfam.get(fam, 0) < (3 if fam else 40)
+        return nfam.get(fam, 0) < (2 if fam else 40)
 
     for i in range(lo, hi):
         a = al[i]
@@ -394,17 +394,9 @@ def _glob_vs_match(case):
         return False
     band = bits(case["tier"], a) & bits(case["tier"], b)
     pds = universe(case["tier"])[0]
-    n = len(pds)
     globs = [x[3] for x in (a, b) if x[1] == "=*"]
-    i = 0
-    while band:
-        if band & 1:
-            pv = pds[n - 1 - i][1]
-            if all(rm.version_holds("=*", g, pv) for g in globs):
-                return False
-        band >>= 1
-        i += 1
-    return True
+    common = {pds[k][1] for k, ch in enumerate(bin(band)[2:].zfill(len(pds))) if ch == "1"}
+    return bool(common) and not any(all(rm.version_holds("=*", g, pv) for g in globs) for pv in common)
 
 
 def _adjacent_revisions(case):
